@@ -148,3 +148,14 @@ def _antnode_conflicts(src):
 
 
 const("antnode_conflicts", "ant-bootstrap/src/initial_peers.rs", _antnode_conflicts, ty="list string")
+
+
+# ---- network id -> protocol strings (ant-protocol/src/version.rs), the run-time meaning of --network-id
+def _proto_decl(src):
+    return re.findall(r'pub static ref (\w+): RwLock<String> =\s*RwLock::new\(format!\(\s*"([^"]+)"', src)
+
+
+const("protocol_str_names", "ant-protocol/src/version.rs", lambda src: [n for n, _ in _proto_decl(src)], ty="list string")
+const("protocol_str_formats", "ant-protocol/src/version.rs", lambda src: [f for _, f in _proto_decl(src)], ty="list string")
+const("default_network_id", "ant-protocol/src/version.rs", r"pub static ref NETWORK_ID: RwLock<u8> = RwLock::new\((\d+)\);")
+const("ant_protocol_version_truncated", "ant-protocol/Cargo.toml", r'\nversion = "(\d+\.\d+)\.[^"]*"', conv=str, ty="string")
